@@ -180,7 +180,7 @@ where
         let mut rng = state.random_mut();
 
         let bound = state.get_value::<MutationStrength<Self>>();
-        ensure!(bound >= 0., "bound must be positive");
+        ensure!(bound > 0., "bound must be positive");
         let distr = Uniform::new(0., bound);
 
         let rm = state.borrow::<MutationRate<Self>>().value()?;
